@@ -272,6 +272,12 @@ unsigned char *ares_memmem(const unsigned char *big, size_t big_len,
 ares_bool_t ares_memeq(const unsigned char *ptr, const unsigned char *val,
                        size_t len)
 {
+  /* Zero-length regions are equal; they may be described by a NULL pointer,
+   * which must not be handed to memcmp() */
+  if (len == 0) {
+    return ARES_TRUE;
+  }
+
   return memcmp(ptr, val, len) == 0 ? ARES_TRUE : ARES_FALSE;
 }
 
